@@ -96,7 +96,7 @@ func init() {
 			if r.Thorough() && (id == "C01" || id == "C03") {
 				ws = append(ws, worldsFor("extreme")...) // genesis volume 2^64-2 droplets: coin and hour sums touch 2^64
 			}
-			runExplore(r, id, exploreCfg{Worlds: ws, MaxDepth: r.Pick(4, 6), MaxStates: r.Pick(2500, 40000), Budget: budget(r), Roots: roots, FullViews: full}, common+oracle)
+			runExplore(r, id, exploreCfg{Worlds: ws, MaxDepth: r.Pick(4, 6), MaxStates: r.Pick(2500, 40000), Budget: budget(r), Roots: roots, FullViews: full, LegacyRoot: id == "C03"}, common+oracle)
 		})
 	}
 	reg("C01", "follower+offered", false, "oracle C01: Σ coins of the real unspent set equals the genesis volume in every state; every transaction of an accepted block has Σin = Σout (exact); coin-creating / destroying / sum-wrapping transactions are rejected at injection and inside publisher-signed blocks")
